@@ -13,8 +13,8 @@ CHECKS = {
    text="PARTIAL: soundness of the predicate-implication judgement Context::is_super_pred_of on the predicates the statement speaks about - comparison atoms over integer constants, True/False and conjunctions of them of unbounded depth (all class pairs except And x And): whenever it answers true, every integer satisfying the right predicate satisfies the left one. TyParamOrdering::canbe_eq/canbe_le/canbe_ge/is_lt/is_gt are verified on exact orderings. Verus, real function text, recursion proved with a decreases measure.",
    note="Assumed callee contracts (not proved): Context::try_cmp and supertype_of_tp on integer-constant TyParams (exact ordering / equality), TyParam::has_upper_bound/has_lower_bound (true), TyParam::eq complete on integer constants; the sat axioms are the specification. Not carried: (And, And), (Or, Or), (lhs, Or), (Or, rhs), Call, General* arms (R2-erased: iterator/closure/Set::get_by/reduce_preds) and the callers (structural_supertype_of, unify). The observed defect in the (And, And) arm is outside what this check can report.",
    technique=TECH_V + "; callee contracts assumed; class copies per constructor pair"),
- "C25": dict(engine="verus", category="proof",
-   text="PARTIAL: the Rust client's message framing (src/dummy.rs). send_msg appends exactly frame(msg) = [inst, size hi, size lo] ++ data; recv_msg returns exactly the message described by the pending bytes and leaves the rest untouched (and succeeds whenever a whole message is pending); Inst::from inverts the discriminant table; with lemma_decode_frame: every message with size == len(data) is decoded exactly as sent whatever follows it, so a sequence of sends is received in step. Verus on the real text; the transport is a ghost byte pipe obeying std's read_exact/write_all contracts (which is what makes decoding independent of how the stream is split).",
+ "C25": dict(engine="verus", category="other",
+   text="Deductive proof (Verus) with one obligation left undischarged as a listed known finding, hence not claimed at proof level. PARTIAL: the Rust client's message framing (src/dummy.rs). send_msg appends exactly frame(msg) = [inst, size hi, size lo] ++ data; recv_msg returns exactly the message described by the pending bytes and leaves the rest untouched (and succeeds whenever a whole message is pending); Inst::from inverts the discriminant table; with lemma_decode_frame: every message with size == len(data) is decoded exactly as sent whatever follows it, so a sequence of sends is received in step. Verus on the real text; the transport is a ghost byte pipe obeying std's read_exact/write_all contracts (which is what makes decoding independent of how the stream is split).",
    note="Known finding (listed in known_findings.txt, reproduced on the real code through the guarded hook): Message::new does not establish size == len(data) for payloads above 65535 bytes, after which the stream desynchronises; because of it the evidence level is reported as 'other' (one obligation of the set stays undischarged). Not carried: src/scripts/repl_server.py (socket.recv(3) may return fewer bytes), DummyVM::eval's use of the messages, transport errors.",
    technique=TECH_V + "; ghost byte pipe for the transport; counterexample replayed through verif_hooks::frame_and_decode"),
  "C32": dict(engine="verus", category="proof",
